@@ -21,7 +21,7 @@ const POOL: &[&str] = &[
 ];
 /// locales whose text runs right to left (CLDR): explicit Arab / Hebr script, or a language whose
 /// likely script is one of them
-const RTL: &[&str] = &["ar", "ar-EG", "he", "fa", "ur", "pa-Arab", "az-Arab", "sd", "uz-Arab", "ug", "ku-Arab", "ks", "ps", "pa-PK", "az-IR", "uz-AF", "ms-Arab"];
+const RTL: &[&str] = &["ar", "ar-EG", "he", "fa", "ur", "pa-Arab", "az-Arab", "sd", "uz-Arab", "ug", "ku-Arab", "ks", "ps", "pa-PK", "az-IR", "uz-AF", "ms-Arab", "ckb", "yi", "dv", "arz"];
 
 struct Case {
     default: String,
@@ -432,7 +432,7 @@ pub fn run(mut ctx: Ctx) -> ! {
          RTL languages; default at any listed position or left out of the list), each compiled as its own package with \
          load_locales!(); for every locale: as_str, Display, AsRef<str>, FromStr, serde_json round trip, FromToStringCodec \
          encode/decode (the cookie codec), as_icu_locale / as_langid against the ICU parse of the name, direction against a hand \
-         list (ar he fa ur = rtl), the same through scope_locale!, and the text of a key; get_all = configured set once each with \
+         list (ar he fa ur ps sd ug ks ckb yi dv arz and the Arab-script / region forms of pa az uz ku ms = rtl), the same through scope_locale!, and the text of a key; get_all = configured set once each with \
          the default first; for every probe string near a name (case variants, '-'/'_' swaps, padding, strict prefixes / suffixes, \
          extensions, names outside the set, junk): FromStr and the codec reject it, serde yields the default. one case = one \
          locale set; non-trivial = set with a strict-prefix pair and an RTL locale; distinct = hash of the configuration",
